@@ -245,6 +245,10 @@ def get_dollar_replacer(formula):
   return final_formula
 
 
+# Matches the start of every line, counting a lone "\r" as a line break as Python's tokenizer does
+# (otherwise the text after it would escape the comment and break the whole generated module).
+_comment_line_start_re = re.compile(r'^|(?<=\r)(?!\n)', re.M)
+
 def _create_syntax_error_code(builder, input_text, err):
   """
   Returns the text for a function that raises the given SyntaxError and includes the offending
@@ -277,7 +281,7 @@ def _create_syntax_error_code(builder, input_text, err):
     message += friendly_errors.friendly_message(err)
 
   return "%s\nraise %s(%r, ('usercode', %r, %r, %r))" % (
-    textbuilder.line_start_re.sub('# ', input_text.rstrip()),
+    _comment_line_start_re.sub('# ', input_text.rstrip()),
     err_type.__name__, message, line, col + 1, input_text_line)
 
 #----------------------------------------------------------------------
